@@ -14,7 +14,11 @@ RULE = ("every DAG(n) n<=4 with every disjoint (L,S) (3^n assignments) and every
         "non-trivial = some returned inducing path has an inner node. "
         "repeat stream (same object): every ADMG(n<=3) x every single directed-edge edit (add/remove/reverse) x 8 (L,S), plus 300 "
         "(3000) random n<=6 graphs with 1-2 edits: all pairs are queried (and dag_to_mag called) on G0, results discarded, G0 is "
-        "edited in place and the judged calls run on the same object against the model of the final graph")
+        "edited in place and the judged calls run on the same object against the model of the final graph. "
+        "size stream: latent dead-end shapes with 5-9 nodes (a latent 3/4/5-clique, DAG-oriented or bidirected, feeding x or a latent "
+        "hub, next to the short inducing path) under every rotation of the integer labels, 6 (40) random relabellings and "
+        "alternating insertion orders. argument kinds: L,S as frozensets on every DAG(n<=3) x (L,S); one node labelled '' or () "
+        "(falsy) - label 0 is a node of every case")
 EXHAUSTIVE = {"quick": "DAG(n) x all disjoint (L,S) x all ordered pairs, n<=4 (n<=3 under all 7 label families); ADMG(n) n<=3 likewise",
               "thorough": "same as quick, plus every DAG(5) with 6 seeded (L,S)"}
 TRUSTED = ["networkx ancestors / predecessors / all_neighbors taken at face value",
@@ -104,9 +108,97 @@ def repeat_cases(tier, rng):
         yield c
 
 
+def clique(ds):
+    return [(a, b) for i, a in enumerate(ds) for b in ds[i + 1:]]
+
+
+def size_shapes():
+    """'latent dead-end' shapes: a DAG-oriented (or bidirected) latent k-clique that a backtracking search enters before
+    the short inducing path; (name, graph, L, S, dag)"""
+    for k in (3, 4, 5):
+        d = list(range(k))
+        x, y = k, k + 1
+        yield ("A%d" % k, gr.G(range(k + 2), D=clique(d) + [(i, x) for i in d] + [(x, y)]), d, [], True)
+        yield ("Ar%d" % k, gr.G(range(k + 2), D=clique(d) + [(i, x) for i in d] + [(y, x)]), d, [], True)
+        h, x, y = k, k + 1, k + 2
+        yield ("B%d" % k, gr.G(range(k + 3), D=clique(d) + [(i, h) for i in d] + [(h, x), (h, y)]), d + [h], [], True)
+        s_ = k + 3
+        yield ("Bs%d" % k, gr.G(range(k + 4), D=clique(d) + [(i, h) for i in d] + [(h, x), (h, y), (x, s_), (y, s_)]),
+               d + [h], [s_], True)
+        x, y = k, k + 1
+        yield ("C%d" % k, gr.G(range(k + 2), D=[(i, x) for i in d] + [(i, y) for i in d], B=clique(d) + [(x, y)]), d, [], False)
+
+
+def size_cases(tier, rng):
+    """SIZE stream: each shape under every rotation of the integer labels (set iteration of small ints is numeric, so the
+    rotation decides whether the dead-end region is entered first), random relabellings and insertion orders"""
+    for name, g, L, S, dag in size_shapes():
+        n = len(g["V"])
+        perms = [[(v + r) % n for v in range(n)] for r in range(n)]
+        for _ in range(6 if tier == "quick" else 40):
+            q = list(range(n))
+            rng.shuffle(q)
+            perms.append(q)
+        for j, perm in enumerate(perms):
+            h = gr.relabel(g, lambda v: perm[v])
+            if j % 2:
+                h["V"] = sorted(h["V"])
+            c = mk("size-" + name, h, [perm[v] for v in L], [perm[v] for v in S], dag, oracle=(n <= 6))
+            if j % 3 == 2:
+                c["_order"] = j
+            yield c
+
+
+def argkind_cases(tier, rng):
+    """ARGUMENT KINDS: L and S passed as frozensets; a falsy label ("" or ()) standing for one node (0 is a node anyway)"""
+    for n in (2, 3):
+        for g in gr.enum_dag(n):
+            lss = list(all_ls(g["V"]))
+            for L, S in lss:
+                c = mk("frozen%d" % n, g, L, S, True)
+                c["_argkind"] = "frozenset"
+                yield c
+            for v in g["V"]:
+                for fk in ("str", "tuple"):
+                    for L, S in [lss[0]] + rng.sample(lss[1:], 3):
+                        c = mk("falsy%d" % n, g, L, S, True)
+                        c["_falsy"] = [v, fk]
+                        yield c
+    for g in gr.enum_admg(3):
+        if g["B"]:
+            lss = list(all_ls(g["V"]))
+            for L, S in rng.sample(lss, 2):
+                c = mk("falsy-admg3", g, L, S, False)
+                c["_falsy"] = [rng.choice(g["V"]), rng.choice(("str", "tuple"))]
+                c["_argkind"] = "frozenset"
+                yield c
+
+
+def build(case, g):
+    """ADMG for g under the case's label family; case["_falsy"] = [node, kind] relabels that node "" / ()"""
+    if not case.get("_falsy"):
+        return gr.to_admg(g, case)
+    from pywhy_graphs import ADMG
+    node, kind = case["_falsy"]
+    flab, finv = gr.labeler(case)
+    special = "" if kind == "str" else ()
+    lab = lambda v: special if v == node else flab(v)          # noqa: E731
+    inv = lambda t: node if (t == special and type(t) is type(special)) else finv(t)   # noqa: E731
+    A = ADMG()
+    for v in gr.ordered(case, g["V"], "V"):
+        A.add_node(lab(v))
+    es = [(k, a, b) for k in "DBU" for a, b in g[k]]
+    names = {"D": "directed", "B": "bidirected", "U": "undirected"}
+    for k, a, b in gr.ordered(case, es, "E"):
+        A.add_edge(lab(a), lab(b), names[k])
+    return A, lab, inv
+
+
 def gen_cases(tier, rng):
     quick = tier == "quick"
     yield from repeat_cases(tier, rng)
+    yield from size_cases(tier, rng)
+    yield from argkind_cases(tier, rng)
     for n in (1, 2, 3, 4):
         for g in gr.enum_dag(n):
             for L, S in all_ls(g["V"]):
@@ -166,7 +258,7 @@ def decode(case, v):
 def run_impl(case):
     from pywhy_graphs.algorithms import generic
     if case.get("g0") is not None:
-        A, lab, inv = gr.to_admg(case["g0"], case)
+        A, lab, inv = build(case, case["g0"])
         for x, y in case["qs"]:                       # warm-up on G0, results discarded
             try:
                 generic.inducing_path(A, lab(x), lab(y), {lab(v) for v in case["L"]}, {lab(v) for v in case["S"]})
@@ -179,18 +271,19 @@ def run_impl(case):
                 pass
         apply_edits(A, lab, case["g0"], case["g"])    # same object from here on
     else:
-        A, lab, inv = gr.to_admg(case["g"], case)
+        A, lab, inv = build(case, case["g"])
+    mkset = frozenset if case.get("_argkind") == "frozenset" else set
     ind = []
     for x, y in case["qs"]:
         try:
-            ok, path = generic.inducing_path(A, lab(x), lab(y), {lab(v) for v in case["L"]}, {lab(v) for v in case["S"]})
+            ok, path = generic.inducing_path(A, lab(x), lab(y), mkset(lab(v) for v in case["L"]), mkset(lab(v) for v in case["S"]))
             ind.append([int(bool(ok)), [inv(v) for v in path]])
         except Exception as e:  # noqa
             ind.append("exc:" + type(e).__name__)
     mag = None
     if case["dag"]:
         try:
-            M = generic.dag_to_mag(A, {lab(v) for v in case["L"]}, {lab(v) for v in case["S"]})
+            M = generic.dag_to_mag(A, mkset(lab(v) for v in case["L"]), mkset(lab(v) for v in case["S"]))
             try:
                 mag = gr.from_mixed(M, inv)
             except KeyError:
@@ -237,7 +330,7 @@ def nontrivial(case, model):
 
 def key(case):
     return (gr.canon(case["g"]), gr.canon(case["g0"]) if case.get("g0") else None, tuple(case["L"]), tuple(case["S"]),
-            case.get("_lab", "int"))
+            case.get("_lab", "int"), case.get("_argkind"), tuple(case.get("_falsy") or ()), case.get("_order"))
 
 
 def shrink_repeat(case):
